@@ -30,13 +30,24 @@ class BVal:
             elif p[0] == "zeros":
                 if p[1].is_const() and p[1].const_value() >= 0:
                     tot = tot + p[1]
-                elif any(p[1] == c for c in nonneg):
+                elif implied_nonneg(p[1], nonneg):
                     tot = tot + p[1]
                 else:
                     return None, f"repeat count `{p[1]}` is not known to be >= 0 on this path"
             else:
                 return None, f"part `{p[1]}` has unknown length"
         return tot, None
+
+
+def implied_nonneg(k, nonneg, at_least=0):
+    """k >= at_least follows from the path constraints: k = c + d with c >= 0 known and d a constant >= at_least"""
+    if k.is_const():
+        return k.const_value() >= at_least
+    for c in nonneg:
+        d = k - c
+        if d.is_const() and d.const_value() >= at_least:
+            return True
+    return False
 
 
 class WriteAnalysis:
@@ -127,7 +138,7 @@ class WriteAnalysis:
         if isinstance(n, ast.Call) and norm(n.func) == "max" and len(n.args) == 2:
             a, b = self.num(n.args[0]), self.num(n.args[1])
             if a is not None and a.is_const() and a.const_value() == 0 and b is not None:
-                return b if any(b == c for c in self.nonneg) else None
+                return b if implied_nonneg(b, self.nonneg) else None
         return None
 
     def bval(self, n):
@@ -191,6 +202,24 @@ class WriteAnalysis:
         if isinstance(test, ast.UnaryOp) and isinstance(test.op, ast.Not):
             P = self.cond_poly(test.operand)
             return (-P - 1) if P is not None else None
+        if isinstance(test, ast.Compare) and len(test.ops) == 1 and isinstance(test.ops[0], (ast.Eq, ast.NotEq)):
+            # len(R + NUL*k) ==/!= N  with  k = N - len(R)  of unknown sign: a negative repeat gives b"", so the length is max(len(R), N);
+            # it equals N exactly when k >= 0 and differs exactly when k < 0
+            for x, y in ((test.left, test.comparators[0]), (test.comparators[0], test.left)):
+                if isinstance(x, ast.Call) and norm(x.func) == "len" and len(x.args) == 1:
+                    bv = self.bval(x.args[0])
+                    n_ = self.num(y)
+                    if bv is None or n_ is None:
+                        continue
+                    zs = [p for p in bv.parts if p[0] == "zeros" and not (p[1].is_const() and p[1].const_value() >= 0) and not implied_nonneg(p[1], self.nonneg)]
+                    if len(zs) != 1:
+                        continue
+                    rest, why = BVal([p for p in bv.parts if p is not zs[0]]).length(self.L, self.nonneg)
+                    if rest is None or not (n_ - rest == zs[0][1]):
+                        continue
+                    k = zs[0][1]
+                    return k if isinstance(test.ops[0], ast.Eq) else (-k - 1)
+            return None
         if isinstance(test, ast.Compare) and len(test.ops) == 1:
             a, b = self.num(test.left), self.num(test.comparators[0])
             if a is None or b is None:
